@@ -26,7 +26,7 @@ func init() {
 		},
 		Run:            c07Run,
 		Floor:          func(tier string) int { return 5000 },
-		Rule:           "generated requests for Reshape (targets built from factorisations of the element count with 0 and -1 inserted at every position; invalid: count mismatch, two -1, entry < -1, 0 beyond the input rank, non-dividing -1), Flatten (axis over [-rank-2, rank+2]), Squeeze (axes absent / every subset of extent-1 axes in any order and sign spelling; invalid: out of range, duplicates incl. via negative spelling, extent != 1), Unsqueeze (any set of output positions, any order and sign; invalid: duplicates, out of range), Shape; input ranks 0..5, all 14 element types, unique-valued inputs so element order is identified; through the operator API and every 4th case through Run. Both tiers first enumerate completely, for every shape of rank 0..3 with extents {1,2}: every Flatten axis in [-rank-2, rank+2], every non-empty axis subset for Squeeze and every set of 1..2 output positions for Unsqueeze, each in every order and every sign spelling. Valid => exact tensor (MUST_EQUAL), ONNX-invalid => error (MUST_ERROR). Non-trivial = the request changes the shape or is invalid; distinct = (operator, dtype, input shape, parameters)." + ruleShared + ruleReused,
+		Rule:           "(Unsqueeze inputs up to rank 9) generated requests for Reshape (targets built from factorisations of the element count with 0 and -1 inserted at every position; invalid: count mismatch, two -1, entry < -1, 0 beyond the input rank, non-dividing -1), Flatten (axis over [-rank-2, rank+2]), Squeeze (axes absent / every subset of extent-1 axes in any order and sign spelling; invalid: out of range, duplicates incl. via negative spelling, extent != 1), Unsqueeze (any set of output positions, any order and sign; invalid: duplicates, out of range), Shape; input ranks 0..5, all 14 element types, unique-valued inputs so element order is identified; through the operator API and every 4th case through Run. Both tiers first enumerate completely, for every shape of rank 0..3 with extents {1,2}: every Flatten axis in [-rank-2, rank+2], every non-empty axis subset for Squeeze and every set of 1..2 output positions for Unsqueeze, each in every order and every sign spelling. Valid => exact tensor (MUST_EQUAL), ONNX-invalid => error (MUST_ERROR). Non-trivial = the request changes the shape or is invalid; distinct = (operator, dtype, input shape, parameters)." + ruleShared + ruleReused,
 		RaceInThorough: true,
 		Technique:      "runtime monitoring: differential execution against the reference shape algebra with exact comparison; invalid requests must produce an error",
 		Assumptions:    []string{"ONNX validity rules as written in DESIGN.md Appendix A.7"},
